@@ -237,7 +237,7 @@ def main():
         'notes': 'All checks run /repo\'s current working tree in-process '
                  '(PICOSIM_REPO overrides the path for mutant runs). '
                  'VERIF_SEED selects the run; every scenario derives from it. '
-                 'known_findings.json lists recorded (none) and repaired (12) '
+                 'known_findings.json lists recorded (none) and repaired (13) '
                  'defects; '
                  'regressions/ holds minimised scenarios of repaired defects, '
                  'replayed on every run. Self-tests: ./check '
